@@ -221,6 +221,14 @@ func (rn *runner) parseVsSpec(tc *testCase, i int, verdict string) {
 			accepted := strings.HasPrefix(tc.impl[j], "ok")
 			if accepted != strings.HasPrefix(verdict, "accept") {
 				rn.disagree(disagreement{Kind: "spec", Ops: tc.ops, At: j, Impl: tc.impl[j], Other: outcomeOf(verdict), Note: tc.note, Detail: "outcome of the parse call against the specification's verdict on the same input"})
+			} else if accepted && sw[0] == "spec" {
+				// the ordered read-back of that very object must be the document the specification assigns to the text
+				for q := j + 1; q < i; q++ {
+					if tc.ops[q] == "owalk "+pw[1] && "accept "+tc.impl[q] != verdict {
+						rn.disagree(disagreement{Kind: "spec", Ops: tc.ops, At: q, Impl: tc.impl[q], Other: strings.TrimPrefix(verdict, "accept "), Note: tc.note, Detail: "ordered read-back of the parsed object against the document the specification assigns to the input"})
+						break
+					}
+				}
 			}
 			return
 		}
